@@ -5,7 +5,8 @@ from ..grammar_check import free_vars
 
 # (function, accessor from the returned value to the code point, bits, what)
 # accessor steps: "f:<field>" struct field, "a:<i>" constructor argument, "t:<i>" tuple item, "some", "case:<k>", "default",
-#                 "then", "else", "in" (into sub/opt/complete/many/cond/peek result), "elem" (element of a decoded list)
+#                 "then", "else", "in" (into sub/opt/complete/many/cond/peek result), "elem" (element of a decoded list);
+#                 "a:<i>@<Variant>" restricts to that variant.  Branch names are documentation only: every branch is followed.
 TH = "tls_handshake::"
 FIELDS = [
     ("tls_record::parse_tls_raw_record", ["f:hdr", "f:record_type"], 8, "content type of raw records"),
@@ -29,9 +30,9 @@ FIELDS = [
     ("tls_message::parse_tls_message_alert", ["a:0", "f:severity"], 8, "alert level"),
     ("tls_message::parse_tls_message_alert", ["a:0", "f:code"], 8, "alert description"),
     ("tls_message::parse_tls_message_heartbeat", ["vec:0", "a:0", "f:heartbeat_type"], 8, "heartbeat type"),
-    ("tls_extensions::parse_tls_extension", ["else", "in", "default", "a:0"], 16, "extension type (Unknown) [selector]"),
-    ("tls_extensions::parse_tls_client_hello_extension", ["else", "in", "default", "a:0"], 16, "client extension type (Unknown) [selector]"),
-    ("tls_extensions::parse_tls_server_hello_extension", ["else", "in", "default", "a:0"], 16, "server extension type (Unknown) [selector]"),
+    ("tls_extensions::parse_tls_extension", ["else", "in", "default", "a:0@Unknown"], 16, "extension type (Unknown) [selector]"),
+    ("tls_extensions::parse_tls_client_hello_extension", ["else", "in", "default", "a:0@Unknown"], 16, "client extension type (Unknown) [selector]"),
+    ("tls_extensions::parse_tls_server_hello_extension", ["else", "in", "default", "a:0@Unknown"], 16, "server extension type (Unknown) [selector]"),
     ("tls_extensions::parse_tls_extension_unknown", ["a:0"], 16, "extension type (parse_tls_extension_unknown)"),
     ("tls_extensions::parse_tls_extension_sni_hostname", ["t:0"], 8, "SNI name type"),
     ("tls_extensions::parse_tls_extension_status_request", ["in", "default", "a:0", "some", "t:0"], 8, "certificate-status type (extension)"),
@@ -43,7 +44,7 @@ FIELDS = [
     ("tls_extensions::parse_tls_extension_encrypted_server_name", ["f:group"], 16, "ESNI named group"),
     ("tls_extensions::parse_tls_extension_heartbeat_content", ["a:0"], 8, "heartbeat mode"),
     ("tls_extensions::parse_tls_extension_max_fragment_length_content", ["a:0"], 8, "max fragment length code"),
-    ("tls_ec::parse_ec_parameters", ["f:params_content", "case:3", "a:0"], 16, "named curve"),
+    ("tls_ec::parse_ec_parameters", ["f:params_content", "case:3", "a:0@NamedGroup"], 16, "named curve"),
     ("tls_sign_hash::parse_digitally_signed", ["f:alg", "some", "f:hash"], 8, "hash algorithm"),
     ("tls_sign_hash::parse_digitally_signed", ["f:alg", "some", "f:sign"], 8, "signature algorithm"),
     ("certificate_transparency::parse_ct_signed_certificate_timestamp", ["in", "f:version"], 8, "CT version"),
@@ -83,83 +84,111 @@ WRAPPERS2 = ("peek", "opt", "complete", "many0", "many1", "all_consuming", "cut"
 WRAPPERS3 = ("sub", "cond", "count")
 
 
-def descend(sym, D, want_elem=False):
-    """look through the binder of a wrapper step to the value its nested grammar returns (None if sym is not such a binder)"""
+def ret_of(sq):
+    return sq["ret"][1] if sq["ret"] and sq["ret"][0] in ("ok", "okwhole") else None
+
+
+def alternatives(sym, D):
+    """values a binder of a wrapper / branching step can stand for: the ok-returns of its nested grammars
+    (None if sym is not such a binder)"""
     if not (sym[0] == "v" and sym[1] in D):
         return None
     st = D[sym[1]]
     k = st[0]
-    def ret_of(sq):
-        return sq["ret"][1] if sq["ret"] and sq["ret"][0] in ("ok", "okwhole") else None
     if k in WRAPPERS2:
-        return ret_of(st[2])
-    if k in WRAPPERS3:
-        return ret_of(st[3])
-    if k == "alt":
-        for s in st[2]:
-            r = ret_of(s)
-            if r is not None:
-                return r
-    if k == "ite":
-        a, b = ret_of(st[3]), ret_of(st[4])
-        if a is None:
-            return b
-        if b is None:
-            return a
-    return None
+        seqs = [st[2]]
+    elif k in WRAPPERS3:
+        seqs = [st[3]]
+    elif k == "alt":
+        seqs = list(st[2])
+    elif k == "ite":
+        seqs = [st[3], st[4]]
+    elif k == "switch":
+        seqs = [sq for _, sq in st[3]] + [st[4]]
+    else:
+        return None
+    return [r for r in (ret_of(s) for s in seqs) if r is not None]
 
 
-def resolve(sym, acc, D):
-    """follow an accessor; wrapper binders (complete/opt/sub/alt/...) are looked through automatically, so the accessor
-    names only fields, constructor arguments, list elements and the branch of a dispatch"""
-    acc = [a for a in acc if a != "in" and not a.startswith("alt:")]
-    i = 0
-    guard = 0
-    while i < len(acc):
-        a = acc[i]
-        guard += 1
-        if guard > 200:
+def descend(sym, D, want_elem=False):
+    a = alternatives(sym, D)
+    return a[0] if a and len(a) == 1 else None
+
+
+CONTROL = ("in", "then", "else", "default")
+
+
+def resolve_all(sym, acc, D):
+    """follow an accessor through every branch: binders of wrappers (complete/opt/sub/...) and of branching steps
+    (if / match / alt) are looked through automatically, so the accessor names only fields, constructor arguments
+    and list elements; the branch names of the table ("then", "case:k", ...) are documentation.  Returns every value
+    that can reach the named place.  Alternatives of a different shape (another variant, None, an empty list) are
+    not the place the row is about and are left to their own rows; no alternative at all is NotFound."""
+    acc = [a for a in acc if a not in CONTROL and not a.startswith("alt:") and not a.startswith("case:")]
+    leaves = []
+    misses = []
+
+    def go(sym, i, depth):
+        if depth > 60:
             raise NotFound("accessor loop")
+        if sym[0] == "ifv":
+            go(sym[2], i, depth + 1); go(sym[3], i, depth + 1); return
+        if sym[0] == "matchv":
+            for _, v in sym[2]:
+                go(v, i, depth + 1)
+            return
+        if i == len(acc):
+            alts = alternatives(sym, D)
+            if alts is not None and D[sym[1]][0] not in ("many0", "many1", "count"):
+                for x in alts:
+                    go(x, i, depth + 1)
+                return
+            leaves.append(sym)
+            return
+        a = acc[i]
         st = D.get(sym[1]) if sym[0] == "v" else None
-        if a in ("then", "else") and st is not None and st[0] == "ite":
-            sym = (st[3] if a == "then" else st[4])["ret"][1]; i += 1; continue
-        if a.startswith("case:") and st is not None and st[0] == "switch":
-            arms = dict((cc, sq) for cc, sq in st[3])
-            c = int(a[5:])
-            if c not in arms:
-                raise NotFound("no case %d" % c)
-            sym = arms[c]["ret"][1]; i += 1; continue
-        if a == "default" and st is not None and st[0] == "switch":
-            sym = st[4]["ret"][1]; i += 1; continue
         if a == "elem":
             if sym[0] in ("map_chunks2", "map_each"):
-                sym = ["listelem", sym[0], sym[2]]; i += 1; continue
+                return go(["listelem", sym[0], sym[2]], i + 1, depth + 1)
+            if sym[0] == "vec" and not sym[1]:
+                return  # the empty list has no elements
             if st is not None and st[0] in ("many0", "many1", "count"):
                 inner = (st[2] if st[0] != "count" else st[3])["ret"][1]
-                d = descend(inner, D)
-                while d is not None and inner[0] == "v" and D[inner[1]][0] == "complete":
-                    inner = d
-                    d = descend(inner, D)
-                sym = inner; i += 1; continue
+                return go(inner, i + 1, depth + 1)
         if a.startswith("f:") and sym[0] == "struct":
             m = [v for kk, v in sym[2] if kk == a[2:]]
             if not m:
-                raise NotFound("no field " + a[2:])
-            sym = m[0]; i += 1; continue
-        if a.startswith("a:") and sym[0] == "ctor" and int(a[2:]) < len(sym[2]):
-            sym = sym[2][int(a[2:])]; i += 1; continue
+                misses.append("no field " + a[2:]); return
+            return go(m[0], i + 1, depth + 1)
+        if a.startswith("a:") and sym[0] in ("ctor", "unit"):
+            idx, _, only = a[2:].partition("@")
+            if only and not sym[1].endswith("::" + only):
+                return  # another variant: not the place this row is about
+            if sym[0] == "ctor" and int(idx) < len(sym[2]):
+                return go(sym[2][int(idx)], i + 1, depth + 1)
         if a.startswith("t:") and sym[0] == "tuple":
-            sym = sym[1][int(a[2:])]; i += 1; continue
-        if a.startswith("vec:") and sym[0] == "vec":
-            sym = sym[1][int(a[4:])]; i += 1; continue
+            return go(sym[1][int(a[2:])], i + 1, depth + 1)
+        if a.startswith("vec:") and sym[0] == "vec" and int(a[4:]) < len(sym[1]):
+            return go(sym[1][int(a[4:])], i + 1, depth + 1)
         if a == "some" and sym[0] == "ctor" and sym[1].endswith("Option::Some"):
-            sym = sym[2][0]; i += 1; continue
-        d = descend(sym, D)
-        if d is not None:
-            sym = d
-            continue
-        raise NotFound("accessor %s on %s" % (a, sym[0]))
-    return sym
+            return go(sym[2][0], i + 1, depth + 1)
+        if a == "some" and sym == ["unit", "core::option::Option::None"]:
+            return
+        alts = alternatives(sym, D)
+        if alts is not None:
+            for x in alts:
+                go(x, i, depth + 1)
+            return
+        misses.append("accessor %s on %s" % (a, sym[0]))
+
+    go(sym, 0, 0)
+    if not leaves:
+        raise NotFound("; ".join(misses[:3]) or "no value reaches it")
+    return leaves
+
+
+def resolve(sym, acc, D):
+    return resolve_all(sym, acc, D)[0]
 
 
 def wire_signature(b, seq):
@@ -239,52 +268,50 @@ def run(tier, repo):
         try:
             if seq["ret"][0] != "ok":
                 raise NotFound("function does not return a value")
-            sym = resolve(seq["ret"][1], acc, D)
+            syms = resolve_all(seq["ret"][1], acc, D)
         except NotFound as nf:
-            rp.fail("UNCONSTRAINED", key + "/shape", site(f), "%s is not where the reference grammar puts it (%s): the code point is dropped, transformed or conditional" % (what, nf))
+            rp.fail("UNCONSTRAINED", key + "/shape", site(f), "%s is not found in the value the parser returns (%s): the code point is dropped, transformed or conditional" % (what, nf))
             continue
         n += 1
         # the same accessor on the reference grammar must reach the same wire element (binder names are canonical):
         # a field fed by another, equally unconstrained integer (e.g. two swapped u16 fields) is not "returned unchanged"
+        def core(x):
+            return x[2][0] if x[0] == "ctor" and len(x[2]) == 1 else x
         specfn = SPEC_OF.get(path)
         if specfn is not None:
             try:
                 sseq = spec_seq(specfn)
-                ssym = resolve(sseq["ret"][1], acc, defs(sseq))
-                def core(x):
-                    return x[2][0] if x[0] == "ctor" and len(x[2]) == 1 else x
-                a_, b_ = core(ssym), core(sym)
-                if a_[0] == "listelem" or b_[0] == "listelem":
-                    same = a_[0] == b_[0]
-                elif a_[0] == "v" and b_[0] == "v":
-                    same = wire_signature(a_[1], sseq) == wire_signature(b_[1], seq)
-                else:
-                    same = a_[0] == b_[0]
-                rp.check(same, "UNCONSTRAINED", key + "/same-wire-element", site(f), "%s is fed by a different wire element than in the reference grammar" % what,
-                         expected=str(wire_signature(a_[1], sseq)) if a_[0] == "v" else a_[0], found=str(wire_signature(b_[1], seq)) if b_[0] == "v" else b_[0],
-                         why_ok="same position in its wire structure as in the reference grammar")
+                ssyms = resolve_all(sseq["ret"][1], acc, defs(sseq))
+                def sig(x, sq):
+                    x = core(x)
+                    return ("u",) + tuple(wire_signature(x[1], sq) or ()) if x[0] == "v" else (x[0],)
+                want_s, got_s = set(sig(x, sseq) for x in ssyms), set(sig(x, seq) for x in syms)
+                rp.check(want_s == got_s, "UNCONSTRAINED", key + "/same-wire-element", site(f), "%s is fed by a different wire element than in the reference grammar" % what,
+                         expected=str(sorted(want_s)), found=str(sorted(got_s)), why_ok="same position in its wire structure as in the reference grammar")
             except NotFound:
                 pass
-        if sym[0] == "listelem":
-            lam = sym[2]
-            body = lam[2] if lam[0] == "lam" else None
-            inner = body[2][0] if body and body[0] == "ctor" and len(body[2]) == 1 else body
-            want = ["be16", ["lp", 0]] if bits == 16 else ["lp", 0]
-            rp.check(inner == want, "UNCONSTRAINED", key, site(f), "list element is not the plain %d-bit wire value" % bits, expected=want, found=inner, why_ok="every %d-bit element is kept as is" % bits)
-            continue
-        if sym[0] == "ctor" and len(sym[2]) == 1:
-            sym = sym[2][0]
-        ok = sym[0] == "v" and sym[1] in D and D[sym[1]][0] == "u" and D[sym[1]][2] == bits
-        if not rp.check(ok, "UNCONSTRAINED", key, site(f), "%s is not a bare %d-bit wire integer" % (what, bits), found=sym_str(sym) if isinstance(sym, list) else sym, why_ok="bare u%d, unchanged" % bits):
-            continue
-        cv = cond_vars(seq)
-        if what.endswith("[selector]"):
-            # the extension type selects the content grammar (the property says so); what must hold is that the
-            # catch-all arm keeps the type unchanged, which is the accessor just resolved
-            rp.ok("UNKNOWN-FALLBACK", site(f), key, "catch-all arm returns Unknown(type, data) with the bare u16")
-            continue
-        rp.check(sym[1] not in cv, "UNCONSTRAINED", key + "/no-condition", site(f), "%s is tested by a guard / verify / dispatch: some values are rejected or change the structure" % what,
-                 found=[sym_str(st[1]) if st[0] == "guard" else st[0] for st in D.values() if False] or "binder %s appears in a condition" % sym[1], why_ok="mentioned in no condition")
+        cv = None
+        for sym in syms:
+            if sym[0] == "listelem":
+                lam = sym[2]
+                body = lam[2] if lam[0] == "lam" else None
+                inner = body[2][0] if body and body[0] == "ctor" and len(body[2]) == 1 else body
+                want = ["be16", ["lp", 0]] if bits == 16 else ["lp", 0]
+                rp.check(inner == want, "UNCONSTRAINED", key, site(f), "list element is not the plain %d-bit wire value" % bits, expected=want, found=inner, why_ok="every %d-bit element is kept as is" % bits)
+                continue
+            sym = core(sym)
+            ok = sym[0] == "v" and sym[1] in D and D[sym[1]][0] == "u" and D[sym[1]][2] == bits
+            if not rp.check(ok, "UNCONSTRAINED", key, site(f), "%s is not a bare %d-bit wire integer" % (what, bits), found=sym_str(sym) if isinstance(sym, list) else sym, why_ok="bare u%d, unchanged" % bits):
+                continue
+            if cv is None:
+                cv = cond_vars(seq)
+            if what.endswith("[selector]"):
+                # the extension type selects the content grammar (the property says so); what must hold is that the
+                # catch-all arm keeps the type unchanged, which is the accessor just resolved
+                rp.ok("UNKNOWN-FALLBACK", site(f), key, "catch-all arm returns Unknown(type, data) with the bare u16")
+                continue
+            rp.check(sym[1] not in cv, "UNCONSTRAINED", key + "/no-condition", site(f), "%s is tested by a guard / verify / dispatch: some values are rejected or change the structure" % what,
+                     found="binder %s appears in a condition" % sym[1], why_ok="mentioned in no condition")
     # extension types that do not reach the Unknown fallback must be known (IANA) types: an unregistered type captured by a
     # dispatch arm is not preserved
     known = set(G.EXT_CONTENT)
